@@ -21,7 +21,7 @@ for p in props:
         m['checks'].append({
             "property_id": pid, "quick_cmd": "./check %s --tier quick" % pid, "thorough_cmd": "./check %s --tier thorough" % pid,
             "evidence_file": "evidence/%s.json" % pid, "replay_cmd_template": "./check %s --replay {path}" % pid, "engine": "verus-in-place",
-            "level_claimed": {"category": "proof",
+            "level_claimed": {"category": c.get('category', 'proof'),
                               "text": c.get('level_text', "Verus discharges, for all inputs and all iterations, the contracts spliced onto the real functions this property depends on (evidence: functions_under_contract, lemmas); what is not proved is listed as assumed contracts / bounded stand-ins"),
                               "design_ref": "DESIGN.md §9 " + pid},
             "level_note": c.get('level_note', "trusted: Verus+Z3; assumed contracts on bytes/std/tokio/nom listed in evidence.coverage.trusted_base; normalisation rules N1-N18 (DESIGN §3)"),
